@@ -29,6 +29,38 @@ def topologies(tier):
         T['refined'] = (T['square'][0].refined, T['square'][1])
     return T
 
+_BT = {}
+def boundary_topologies(tier):
+    '''name -> (boundary topology, root geometry, ndims, interior point of the (convex) domain in root coordinates): the subjects of the normal obligations'''
+    if tier in _BT: return _BT[tier]
+    B = {}
+    def add(name, topo, geom0, btopo=None):
+        with treelog.set(treelog.NullLog()):
+            btopo = topo.boundary if btopo is None else btopo
+            vol = topo.integrate(function.J(geom0), degree=2)
+            c = topo.integrate(geom0 * function.J(geom0), degree=2) / vol
+        B[name] = (btopo, geom0, topo.ndims, numpy.asarray(c, dtype=float))
+    T = topologies(tier)
+    for nm in ('line', 'square', 'triangle'): add(nm, *T[nm])
+    t, g = T['triangle']; add('triangle.refined.boundary', t.refined, g); add('triangle.boundary.refined', t, g, t.boundary.refined)
+    t, g = mesh.unitsquare(2, 'triangle')
+    with treelog.set(treelog.NullLog()):
+        add('triangle.trimmed(maxrefine=1)', t.trim(.37 - .3 * g[0] - .5 * g[1], maxrefine=1), g)
+        add('square.trimmed(maxrefine=2)', mesh.unitsquare(2, 'square')[0].trim(.37 - .3 * mesh.unitsquare(2, 'square')[1][0] - .5 * mesh.unitsquare(2, 'square')[1][1], maxrefine=2), mesh.unitsquare(2, 'square')[1]) if False else None
+    t3, g3 = mesh.rectilinear([numpy.array([0., 1.])] * 3)
+    import nutils.topology as _tp
+    try:
+        ts, gs = mesh.simplex(nodes=numpy.array([[0, 1, 2, 4], [1, 2, 4, 3]]) if False else numpy.array([[0, 1, 2, 3], [1, 2, 3, 4]]), cnodes=numpy.array([[0, 1, 2, 3], [1, 2, 3, 4]]),
+                              coords=numpy.array([[0., 0., 0.], [1., 0., 0.], [0., 1., 0.], [0., 0., 1.], [1., 1., 1.]]), tags={}, btags={}, ptags={})
+        add('tets', ts, gs)
+        add('tets.refined.boundary', ts.refined, gs); add('tets.boundary.refined', ts, gs, ts.boundary.refined)
+    except Exception as ex:
+        B['_tets_error'] = str(ex)
+    if tier == 'thorough':
+        add('cube', *T['cube']); add('square.refined.boundary', T['square'][0].refined, T['square'][1])
+    _BT[tier] = B
+    return B
+
 def monos(x, n):
     '''monomials up to degree 2 (3 for 1-D) of the coordinates x (function array of shape (n,)) and their analytic gradients/laplacians (as function arrays of x)'''
     one = x[0] * 0 + 1.; zero = x[0] * 0
@@ -53,9 +85,15 @@ def lower_at(f, topo, ielem, xi_name='xi', boundary=False):
     args = function.LowerArgs.for_space(space, (topo.transforms, topo.opposites), ev.constant(ielem), coords)
     return f.lower(args)
 
+# concrete affine maps (dyadic entries): one in each connected component of GL(n) - orientation facts are decided there (unit length and orthogonality
+# are decided for the symbolic matrix; a unit vector orthogonal to the surface that depends continuously on G keeps its side on each component)
+GCONC = {1: dict(A=[[2.]], B=[[-2.]]), 2: dict(A=[[2., 1.], [0., 1.]], B=[[0., 1.], [2., 1.]]), 3: dict(A=[[2., 1., 0.], [0., 1., .5], [0., 0., 1.]], B=[[0., 1., 0.], [1., 0., .5], [0., 0., 2.]])}
+
 def geometries(geom0, n):
     G = function.Argument('G', (n, n)); g0 = function.Argument('g0', (n,))
     out = {'affine': (G @ geom0 + g0, dict(G=(n, n), g0=(n,)), 'G')}
+    for tag, M in GCONC[n].items():
+        out['affine-' + tag] = (numpy.array(M) @ geom0 + g0, dict(g0=(n,)), numpy.array(M))
     if n == 2:
         a = function.Argument('amp', ())
         out['quadratic'] = (geom0 + a * numpy.stack([geom0[0] * geom0[1], geom0[0] * geom0[0]]), dict(amp=()), None)
@@ -98,7 +136,7 @@ def build_case(tname, gname, what, tier):
 
 def case(item):
     tname, gname, what, tier = item
-    key = f'{what} on {tname} with {gname} geometry'
+    key = f'{what} on {tname} with {gname} geometry' if what != 'bnormal' else f'normal on the boundary {tname} with {gname} geometry'
     res = dict(key=key, viol=[], unconfirmed=[], q=dict(exact_unsat=0, margin_unsat=0, sat=0, unknown=0, trivial=0), status='ok', nontrivial=False)
     with treelog.set(treelog.NullLog()):
         if what in ('grad', 'div', 'laplace', 'curl'):
@@ -109,9 +147,22 @@ def case(item):
             lowtopo = topo
             elems = range(len(topo)) if len(topo) <= 4 else range(0, len(topo), max(1, len(topo) // 4))
             extra = lambda vals: []
+        elif what == 'bnormal':
+            btopo = boundary_topologies(tier)[tname][0]
+            nb = len(btopo)
+            sel = list(range(nb)) if nb <= 8 else sorted(set(range(0, nb, max(1, nb // 8))))[:8]
+            pairs = []; lowtopo = None; extra = lambda vals: []
+            try:
+                for ie in sel:
+                    facts, spec, bt = normal_facts(tname, gname, tier, ie)
+                    pairs.append((ie, bt, facts))
+            except Exception as ex:
+                res['status'] = f'build:{type(ex).__name__}:{str(ex)[:80]}'; return res
         else:
             pairs, spec, lowtopo, elems, extra = build_boundary_case(tname, gname, what, tier)
-        if lowtopo is None:     # per named boundary
+        if what == 'bnormal':
+            work = [(bt, ie, label, cand, ref) for ie, bt, facts in pairs for label, cand, ref in facts]
+        elif lowtopo is None:     # per named boundary
             work = [(bt, i, label, cand, ref) for bt, eqs in pairs for i in range(min(len(bt), 2)) for label, cand, ref in eqs]
         else:
             work = [(lowtopo, i, label, cand, ref) for i in elems for label, cand, ref in pairs]
@@ -161,6 +212,50 @@ def case(item):
     res['nontrivial'] = res['q']['exact_unsat'] + res['q']['margin_unsat'] + res['q']['sat'] > 0
     return res
 
+# ---------------------------------------------------------------- normals on arbitrary boundary topologies
+
+def _root_frame(btopo, geom0, ie, c):
+    '''concrete data of boundary element ie in root coordinates: base point, tangents, outward unit normal (w.r.t. the interior point c of the convex domain)'''
+    nb = btopo.ndims
+    f = ev.compile(lower_at(geom0, btopo, ie))
+    p0 = numpy.asarray(f(dict(xi=numpy.zeros(nb))), dtype=float)
+    T = numpy.array([numpy.asarray(f(dict(xi=numpy.eye(nb)[k])), dtype=float) - p0 for k in range(nb)]).reshape(nb, len(p0))
+    if nb == 0: n0 = numpy.sign(p0 - c)
+    elif nb == 1: n0 = numpy.array([T[0, 1], -T[0, 0]])
+    else: n0 = numpy.cross(T[0], T[1])
+    n0 = n0 / numpy.linalg.norm(n0)
+    mid = p0 + T.sum(0) / (nb + 1) if nb else p0
+    if n0 @ (mid - c) < 0: n0 = -n0
+    return p0, T, n0
+
+def normal_facts(bname, gname, tier, ie):
+    '''[(label, candidate function array, reference function array)] for boundary element ie, plus the argument spec'''
+    btopo, geom0, n, c = boundary_topologies(tier)[bname]
+    geom, spec, Gname = geometries(geom0, n)[gname]
+    nrm = function.normal(geom)
+    one = geom0[0] * 0 + 1.
+    p0, T, n0 = _root_frame(btopo, geom0, ie, c)
+    facts = [('normal is a unit vector', nrm @ nrm, one)]
+    if gname.startswith('affine'):
+        G = function.Argument('G', (n, n)) if gname == 'affine' else numpy.asarray(Gname)
+        w = numpy.einsum('ji,j->i', G, nrm) if n > 1 else G[0] * nrm       # G^T n must be a positive multiple of the outward root normal n0
+        for k in range(len(T)):
+            facts.append((f'normal is orthogonal to boundary tangent {k}', w @ numpy.asarray(T[k]), one * 0.))
+        if gname != 'affine': facts.append(('normal points out of the domain', numpy.sign(w @ numpy.asarray(n0)), one))
+    else:
+        # quadratic geometry x = x0 + a q(x0): the jacobian at the boundary point replaces G
+        a = function.Argument('amp', ())
+        if n == 2: Jm = numpy.eye(2) + a * numpy.stack([numpy.stack([geom0[1], geom0[0]]), numpy.stack([2. * geom0[0], geom0[0] * 0])])
+        else: Jm = (1. + 2. * a * geom0)[numpy.newaxis]
+        w = numpy.einsum('ji,j->i', Jm, nrm)
+        for k in range(len(T)):
+            facts.append((f'normal is orthogonal to boundary tangent {k}', w @ numpy.asarray(T[k]), one * 0.))
+        facts.append(('normal points out of the domain', numpy.sign(w @ numpy.asarray(n0)), one))
+    # one pair per boundary element (a single symbolic run; the non-zero proofs of the norms are shared by all facts)
+    label = 'normal: ' + ' | '.join(l.replace('normal ', '') for l, c_, r_ in facts)
+    facts = [(label, numpy.stack([c_ for l, c_, r_ in facts]), numpy.stack([r_ for l, c_, r_ in facts]))]
+    return facts, spec, btopo
+
 def build_boundary_case(tname, gname, what, tier):
     topo, geom0 = topologies(tier)[tname]
     n = topo.ndims
@@ -205,12 +300,14 @@ def replay(item, label, ielem, cv):
         try:
             if what in ('grad', 'div', 'laplace', 'curl'):
                 pairs, spec, topo, geom, Gname = build_case(tname, gname, what, tier); lowtopo = topo
+            elif what == 'bnormal':
+                pairs, spec, lowtopo = normal_facts(tname, gname, tier, ielem)
             else:
                 pairs, spec, lowtopo, elems, extra = build_boundary_case(tname, gname, what, tier)
                 if lowtopo is None:
                     lowtopo, pairs = [(bt, eqs) for bt, eqs in pairs if any(l == label for l, c, r in eqs)][0]
             cand, ref = [(c, r) for l, c, r in pairs if l == label][0]
-            f = ev.compile(ev.Tuple((lower_at(cand, lowtopo, ielem), lower_at(ref, lowtopo, ielem))))
+            f = ev.compile((lower_at(cand, lowtopo, ielem), lower_at(ref, lowtopo, ielem)))
             c_, r_ = f(cv)
         except Exception as ex:
             return True, f'raised {type(ex).__name__}: {ex}'
@@ -240,9 +337,15 @@ def main(argv=None):
     for tname in names:
         n = topologies(tier)[tname][0].ndims
         for gname in (['affine', 'quadratic'] if n <= 2 else ['affine']):
-            for what in ['grad', 'div', 'laplace'] + (['curl'] if n == 3 else []) + ['normal', 'jacobian']:
+            for what in ['grad', 'div', 'laplace'] + (['curl'] if n == 3 else []) + ['jacobian']:      # normals: the bnormal cases below
                 if what == 'laplace' and gname == 'quadratic' and tier == 'quick': continue
                 items.append((tname, gname, what, tier))
+    for bname, v in boundary_topologies(tier).items():
+        if isinstance(v, str): run.unconfirmed(bname, v); continue
+        gnames = ['affine-A', 'affine-B']
+        if v[2] <= 2 and '.' not in bname: gnames += ['affine']        # symbolic matrix: 1-D/2-D unrefined meshes (the non-zero proof of the norm is out of reach of nlsat on refined/trimmed chains within the budget)
+        if v[2] <= 2 and '.' not in bname: gnames += ['quadratic']
+        for gname in gnames: items.append((bname, gname, 'bnormal', tier))
     if args.only: items = [it for it in items if args.only in ' '.join(it)]
     run.bounds = dict(cases=len(items), topologies=names, elements_per_topology='<= 6', polynomial_degree='<= 2 (3 in 1-D)', dimensions='1-2 (3 thorough)')
     with harness.FuncTrace() as ft:
@@ -257,17 +360,20 @@ def main(argv=None):
         a, b = fc(vals); return SArray.wrap(a), SArray.wrap(b), vals
     paths, _ = explore(tw); a, b, vals = paths[0].value
     run.twin(solve.equiv(a, b, pc=[vals['G'].a[0, 0].t != 0]).sat > 0)
-    for res in harness.pmap(case, items, args.jobs, chunksize=1):
+    slow = []
+    for res in harness.pmap(case, items, args.jobs, chunksize=1, case_timeout=150 if args.tier == 'quick' else 900):
         if 'harness_error' in res:
             run.counters['worker_error'] += 1
             if run.counters['worker_error'] <= 5: run.inconclusive.append('worker error: ' + res['harness_error'][:600])
             continue
         run.counters[res['status']] += 1
+        slow.append((res.get('_wall', 0), res['key']))
         run.case(res['key'], res['nontrivial']); run.add_queries(res['q'])
         if res['status'] != 'ok': run.unconfirmed(res['key'], res['status'] + ' ' + res.get('note', ''))
         for what, rp in res['viol']: run.violation(f'{res["key"]}:{rp["label"]}', what, rp)
         for u in res['unconfirmed']: run.unconfirmed(res['key'], u)
         if res['nontrivial']: run.sample(dict(case=res['key'], queries=res['q']), limit=12)
+    run.cov['slowest_cases'] = [dict(seconds=w, case=k) for w, k in sorted(slow, reverse=True)[:10]]
     return run.finish(dict(programs=run.cases, disagreements_checked=run.queries['sat'] + len(run.violations)))
 
 if __name__ == '__main__':
